@@ -717,6 +717,7 @@ class Weaver:
             mt.replace(m.start(), m.end(), '')
             pos = m.start()
         lost = []     # anchors that no longer resolve: the woven text is skipped (a proof aid is missing, never a verdict)
+        sub_renames = {}
         # declared substitutions first (exact text, must match)
         for rid, old, new in spec['subs']:
             if isinstance(old, tuple):
@@ -731,6 +732,14 @@ class Weaver:
                 continue
             cnt = mt.text.count(old)
             if cnt == 0:
+                fz = fuzzy_locate(mt.text, old)
+                if fz:
+                    # the substituted expression mentions a renamed local: same rule, names carried over
+                    sub_renames.update(fz[2])
+                    new_ = apply_renames(new, fz[2])
+                    log.append((rid, '%s  =>  %s  (x1, identifiers renamed: %s)' % (norm(mt.text[fz[0]:fz[0] + fz[1]]), norm(new_), ', '.join('%s -> %s' % kv for kv in sorted(fz[2].items())))))
+                    mt.replace(fz[0], fz[0] + fz[1], new_)
+                    continue
                 log.append((rid, 'ANCHOR LOST: %s' % norm(old)))
                 continue
             pos = 0
@@ -767,7 +776,7 @@ class Weaver:
                 cnt += 1
             log.append(('ghost', 'after-each /%s/: %d sites instrumented' % (ae['rx'], cnt)))
         # identifier renames discovered by fuzzy re-anchoring (a local was renamed in an anchor line): applied to every woven aid
-        renames = {}
+        renames = dict(sub_renames)
         fuzzy = []
         for at in spec['ats']:
             if not at.get('rx') and mt.text.count(at['anchor']) == 0:
